@@ -130,4 +130,48 @@ theorem stalled_not_pending (db : DB) (hh : Heights db) (seg : List Entry) (x : 
   have := heights_path db hh l.blk.id l.blk.num Q hQ hab x.blk.id hm x hfx
   omega
 
+/-- **stalled blocks lie strictly above the old LIB and at or below the new one**: the blocks reported stalled at a LIB
+    move from `db.libRef` to `newLIB` have heights in (old LIB height, height of the last announced block] -/
+theorem stalled_range (db : DB) (hh : Heights db) (fsb : Nat) (newLIB : Ref)
+    (h : (db.hasNewIrreversibleSegment fsb newLIB).1 = true) (hl : db.hasLIB = true)
+    (hfaith : ∀ e ∈ (db.hasNewIrreversibleSegment fsb newLIB).2.1, db.find e.blk.id = some e)
+    (x : Entry) (hx : x ∈ (db.hasNewIrreversibleSegment fsb newLIB).2.2) :
+    db.libRef.num < x.blk.num ∧
+    ∃ l, (db.hasNewIrreversibleSegment fsb newLIB).2.1.getLast? = some l ∧ x.blk.num ≤ l.blk.num := by
+  obtain ⟨hpath, _, _⟩ := segment_is_path db fsb newLIB h hl
+  -- the stalled list is `stalledInSegment` of the announced segment
+  have hst : (db.hasNewIrreversibleSegment fsb newLIB).2.2 =
+      db.stalledInSegment (db.hasNewIrreversibleSegment fsb newLIB).2.1 := by
+    unfold DB.hasNewIrreversibleSegment at h ⊢
+    split
+    · rename_i hc; simp [hc] at h
+    · split
+      · rename_i hc; simp_all
+      · rename_i hc; simp_all
+      · rfl
+  rw [hst] at hx
+  obtain ⟨_, _, f, l, hf, hlast, hfx, hxl⟩ := stalled_off_segment db _ x hx
+  refine ⟨?_, l, hlast, hxl⟩
+  -- the first announced block is a child of the old LIB (or of a block above it): its height is above the LIB's
+  have hfm : f ∈ (db.hasNewIrreversibleSegment fsb newLIB).2.1 := List.mem_of_mem_head? hf
+  have := heights_path db hh db.libRef.id db.libRef.num _ hpath hh.2.1 f.blk.id
+    (List.mem_map.mpr ⟨f, hfm, rfl⟩) f (hfaith f hfm)
+  omega
+
+/-- **reported at most once**: the blocks reported stalled at two different LIB moves are different blocks — the first
+    move ends at height `n1`, any later one starts from a LIB at least that high, and the height ranges
+    (old LIB, new LIB] of the two moves do not meet -/
+theorem stalled_once (db db' : DB) (hh : Heights db) (hh' : Heights db') (fsb : Nat) (R R' : Ref)
+    (h : (db.hasNewIrreversibleSegment fsb R).1 = true) (hl : db.hasLIB = true)
+    (hf : ∀ e ∈ (db.hasNewIrreversibleSegment fsb R).2.1, db.find e.blk.id = some e)
+    (h' : (db'.hasNewIrreversibleSegment fsb R').1 = true) (hl' : db'.hasLIB = true)
+    (hf' : ∀ e ∈ (db'.hasNewIrreversibleSegment fsb R').2.1, db'.find e.blk.id = some e)
+    (hlater : ∀ l, (db.hasNewIrreversibleSegment fsb R).2.1.getLast? = some l → l.blk.num ≤ db'.libRef.num)
+    (x y : Entry) (hx : x ∈ (db.hasNewIrreversibleSegment fsb R).2.2)
+    (hy : y ∈ (db'.hasNewIrreversibleSegment fsb R').2.2) : x.blk.num < y.blk.num := by
+  obtain ⟨_, l, hlast, hxl⟩ := stalled_range db hh fsb R h hl hf x hx
+  obtain ⟨hyl, _⟩ := stalled_range db' hh' fsb R' h' hl' hf' y hy
+  have := hlater l hlast
+  omega
+
 end BstreamVerif.Props.C02
